@@ -402,6 +402,31 @@ def route_vf(v):
     return ku.run(go())
 
 
+def _meta_of(v):
+    """static values under the metadata members the payload pipeline touches"""
+    return {"annotations": {"c11/lit": v, "plain": "kept"}, "labels": {"c11-lit": v}, "finalizers": [v], "extra": {"deep": v}}
+
+
+def _read_meta(body, suffix=""):
+    md = body.get("metadata") if isinstance(body, dict) else None
+    md = md if isinstance(md, dict) else {}
+
+    def at(*path):
+        x = md
+        for k in path:
+            if isinstance(x, dict) and k in x:
+                x = x[k]
+            elif isinstance(x, list) and isinstance(k, int) and k < len(x):
+                x = x[k]
+            else:
+                return "<missing from the request body>"
+        return x
+
+    return {"metadata.annotations" + suffix: at("annotations", "c11/lit"), "metadata.labels" + suffix: at("labels", "c11-lit"),
+            "metadata.finalizers" + suffix: at("finalizers", 0), "metadata.extra" + suffix: at("extra", "deep"),
+            "metadata.annotations (overlay)" + suffix: at("annotations", "c11/ov")}
+
+
 def route_rf(v):
     """the literal in a ResourceFunction `resource` and in an inline overlay; observed in the POST body"""
     import celpy
@@ -415,8 +440,8 @@ def route_rf(v):
     async def go():
         spec = {"apiConfig": {"apiVersion": "v1", "kind": "ConfigMap", "plural": "configmaps", "name": "c11-cm",
                               "namespace": "ns", "owned": False},
-                "resource": {"data": v, "wrap": {"inner": [v]}},
-                "overlays": [{"overlay": {"viaOverlay": v}}]}
+                "resource": {"data": v, "wrap": {"inner": [v]}, "metadata": _meta_of(v)},
+                "overlays": [{"overlay": {"viaOverlay": v, "metadata": {"annotations": {"c11/ov": v}}}}]}
         fn = await ku.offer_resource_function("c11-rf", spec)
         if _obs(fn) != "ok":
             return ("prepare-" + _obs(fn), None)
@@ -428,7 +453,7 @@ def route_rf(v):
         body = posts[0]["body"]
         try:
             return ("ok", {"resource": body["data"], "resource.nested": body["wrap"]["inner"][0],
-                           "overlay": body["viaOverlay"]})
+                           "overlay": body["viaOverlay"], **_read_meta(body)})
         except Exception:
             return ("bad-body", None)
 
@@ -448,9 +473,20 @@ def route_wf(v):
         fn = await ku.offer_value_function("c11-echo", {"return": {"got": "=inputs.lit"}})
         if _obs(fn) != "ok":
             raise Infra("the echo ValueFunction does not prepare")
+        ref = {"kind": "ValueFunction", "name": "c11-echo"}
         spec = {"crdRef": {"apiGroup": "c11.koreo.dev", "version": "v1", "kind": "T"},
-                "steps": [{"label": "stp", "ref": {"kind": "ValueFunction", "name": "c11-echo"},
-                           "inputs": {"lit": v}, "state": {"st": v}}]}
+                "steps": [
+                    {"label": "stp", "ref": ref, "inputs": {"lit": v}, "state": {"st": v, "v_stp": "=value"}},
+                    # consumes an earlier step's result next to the literal
+                    {"label": "dep", "ref": ref, "inputs": {"lit": v, "prev": "=steps.stp.got"}, "state": {"v_dep": "=value"}},
+                    {"label": "each", "ref": ref, "forEach": {"itemIn": "=[1, 2]", "inputKey": "item"},
+                     "inputs": {"lit": v}, "state": {"v_each": "=value"}},
+                    {"label": "dep-each", "ref": ref, "forEach": {"itemIn": "=[1, 2]", "inputKey": "item"},
+                     "inputs": {"lit": v, "prev": "=steps.dep.got"}, "state": {"v_dep_each": "=value"}},
+                    {"label": "cond", "ref": ref, "skipIf": "=false", "inputs": {"lit": v}, "state": {"v_cond": "=value"}},
+                    {"label": "dep-cond", "ref": ref, "skipIf": "=false", "inputs": {"lit": v, "prev": "=steps.stp.got"},
+                     "state": {"v_dep_cond": "=value"}},
+                ]}
         wf = await ku.offer_workflow("c11-wf", spec)
         if _obs(wf) != "ok":
             return ("prepare-" + _obs(wf), None)
@@ -460,11 +496,26 @@ def route_wf(v):
             return ("reconcile-" + _obs(res.result), None)
         if res.state_errors:
             return ("state-error", None)
-        out, st = convert_bools(res.result), convert_bools(res.state)
-        try:
-            return ("ok", {"inputs": out[0]["got"], "state": st["st"]})
-        except Exception:
-            return ("bad-shape", None)
+        st = convert_bools(res.state)
+
+        def got(key, *path):
+            x = st.get(key, "<step value missing>") if isinstance(st, dict) else "<no state>"
+            for k in path:
+                if isinstance(x, dict) and k in x:
+                    x = x[k]
+                elif isinstance(x, list) and isinstance(k, int) and k < len(x):
+                    x = x[k]
+                else:
+                    return "<the Function did not receive `lit`>"
+            return x
+
+        return ("ok", {"inputs": got("v_stp", "got"), "state": got("st"),
+                       "inputs of a step with a dependency": got("v_dep", "got"),
+                       "inputs of a forEach step (item 0)": got("v_each", 0, "got"),
+                       "inputs of a forEach step (item 1)": got("v_each", 1, "got"),
+                       "inputs of a forEach step with a dependency": got("v_dep_each", 1, "got"),
+                       "inputs of a skipIf step": got("v_cond", "got"),
+                       "inputs of a skipIf step with a dependency": got("v_dep_cond", "got")})
 
     return ku.run(go())
 
@@ -649,8 +700,8 @@ def route_rf_patch(v):
     async def go():
         spec = {"apiConfig": {"apiVersion": "v1", "kind": "ConfigMap", "plural": "configmaps", "name": "c11-cm",
                               "namespace": "ns", "owned": False},
-                "resource": {"marker": "wanted", "data": v, "wrap": {"inner": [v]}},
-                "overlays": [{"overlay": {"viaOverlay": v}}]}
+                "resource": {"marker": "wanted", "data": v, "wrap": {"inner": [v]}, "metadata": _meta_of(v)},
+                "overlays": [{"overlay": {"viaOverlay": v, "metadata": {"annotations": {"c11/ov": v}}}}]}
         fn = await ku.offer_resource_function("c11-rf", spec)
         if _obs(fn) != "ok":
             return ("prepare-" + _obs(fn), None)
@@ -666,7 +717,8 @@ def route_rf_patch(v):
         return ("ok", {"resource (PATCH body)": body.get("data", "<missing from the PATCH body>"),
                        "resource.nested (PATCH body)": wrap["inner"][0] if isinstance(wrap, dict) and isinstance(
                            wrap.get("inner"), list) and len(wrap["inner"]) == 1 else "<missing from the PATCH body>",
-                       "overlay (PATCH body)": body.get("viaOverlay", "<missing from the PATCH body>")})
+                       "overlay (PATCH body)": body.get("viaOverlay", "<missing from the PATCH body>"),
+                       **_read_meta(body, " (PATCH body)")})
 
     return ku.run(go())
 
